@@ -298,4 +298,350 @@ theorem flagVal_canon (T : Table) (pre : List Arg) (whole : Fields) (fl : Nat) (
       exact fun f hf => h3 f hf
     simp [this, h1, hl]
 
+/-! ### the parser inverts the TL encoding -/
+
+def DeOK (T : Table) (auto : Bool) (fuel : Nat) : Item → Bytes → Prop
+  | .one e iv v, bs => ∀ rest ut,
+      deserOne T auto (deserObj T auto fuel) ut e iv (bs ++ rest) = some (some v, bs.length)
+  | .many e vs, bs => ∀ rest,
+      deserMany (deserElem T auto (deserObj T auto fuel) e) vs.length (bs ++ rest) = some (vs, bs.length)
+  | .field a v, bs => ∀ rest ut,
+      deserArg T auto (deserObj T auto fuel) ut a (bs ++ rest) = some (some v, bs.length)
+  | .body args whole, bs => ∀ rest pre schema, condOK T pre args = true →
+      deserBody T auto (deserObj T auto fuel) schema args (canonFields pre whole) (bs ++ rest) =
+        some (canonFields pre whole ++ canonFields args whole, bs.length)
+
+theorem mem_of_byName {T : Table} {n : Nat} {c : Ctor} (h : T.byName n = some c) : c ∈ T.ctors := by
+  unfold Table.byName at h
+  have := List.mem_of_find?_eq_some h
+  simpa using this
+
+theorem mem_of_byClass {T : Table} {cl : Nat} {c : Ctor} (h : c ∈ T.byClass cl) : c ∈ T.ctors := by
+  unfold Table.byClass at h
+  exact (List.mem_filter.mp h).1
+
+theorem auto_unregistered (T : Table) (auto : Bool) (k : Nat) (b : Bytes) (h : byIdLE T b = none) :
+    autoParse (fun x => deserObj T auto (k + 1) x none) b b.length = some (.bytes b) := by
+  simp [autoParse, deserObj, h]
+
+theorem roundtrip (T : Table) (P : Bytes → Prop) (auto : Bool) (hT : TableOK T)
+    (hP : auto = true → ∀ b, P b → byIdLE T b = none)
+    {item : Item} {bs : Bytes} (h : Enc T P item bs) :
+    ∃ N, ∀ fuel, N ≤ fuel → DeOK T auto fuel item bs := by
+  induction h with
+  | int h1 h2 =>
+    exact ⟨0, fun fuel _ rest ut => by
+      simp [deserOne, readFixed, take_append_len _ _ 4 (intLE_length 4 _), intOfLE_intLE4 _ h1 h2, intLE_length]⟩
+  | long h1 h2 =>
+    exact ⟨0, fun fuel _ rest ut => by
+      simp [deserOne, readFixed, take_append_len _ _ 8 (intLE_length 8 _), intOfLE_intLE8 _ h1 h2, intLE_length]⟩
+  | nat h1 h2 =>
+    exact ⟨0, fun fuel _ rest ut => by
+      simp [deserOne, readFixed, take_append_len _ _ 4 (intLE_length 4 _), natOfLE_intLE4 _ h1 h2, intLE_length]⟩
+  | int128 h1 h2 =>
+    exact ⟨0, fun fuel _ rest ut => by simp [deserOne, readFixed, take_append_len _ _ 16 h1, h1]⟩
+  | int256 h1 h2 =>
+    exact ⟨0, fun fuel _ rest ut => by simp [deserOne, readFixed, take_append_len _ _ 32 h1, h1]⟩
+  | boolT => exact ⟨0, fun fuel _ rest ut => by simp [deserOne, readFixed, boolTrueId, natToLE]⟩
+  | boolF => exact ⟨0, fun fuel _ rest ut => by simp [deserOne, readFixed, boolFalseId, natToLE]⟩
+  | bytes h1 h2 h3 =>
+    refine ⟨1, fun fuel hf rest ut => ?_⟩
+    obtain ⟨k, rfl, _⟩ := succ_of_le hf
+    simp only [deserOne, readFrame_encodeBytes _ rest h2]
+    cases auto with
+    | false => simp
+    | true =>
+      cases ut with
+      | true => simp
+      | false => simp [auto_unregistered T true k _ (hP rfl _ h3)]
+  | string h1 h2 h3 h4 =>
+    refine ⟨1, fun fuel hf rest ut => ?_⟩
+    obtain ⟨k, rfl, _⟩ := succ_of_le hf
+    simp only [deserOne, readFrame_encodeBytes _ rest h3]
+    cases auto with
+    | false => simp [h2]
+    | true =>
+      cases ut with
+      | true => simp [h2]
+      | false => simp [auto_unregistered T true k _ (hP rfl _ h4), h2]
+  | bare hn hc hb ih =>
+    obtain ⟨N, hN⟩ := ih
+    refine ⟨N + 1, fun fuel hf rest ut => ?_⟩
+    obtain ⟨k, rfl, hk⟩ := succ_of_le hf
+    rename_i iv n c fs bs
+    have hok := hT c (mem_of_byName hn)
+    simp only [ctorOK, Bool.and_eq_true] at hok
+    have := hN k hk rest [] none hok.1.2
+    simp only [canonFields, List.filterMap_nil, List.nil_append] at this
+    simp only [deserOne, hn, deserObj, this, Option.map_some]
+    rw [show List.filterMap (fun a => Option.map (fun v => (a.name, v)) (List.lookup a.name fs)) c.args = canonFields c.args fs from rfl, ← hc]
+  | boxed hm hn hc hb ih =>
+    obtain ⟨N, hN⟩ := ih
+    refine ⟨N + 1, fun fuel hf rest ut => ?_⟩
+    obtain ⟨k, rfl, hk⟩ := succ_of_le hf
+    rename_i iv cl c fs bs
+    have hok := hT c (mem_of_byClass hm)
+    simp only [ctorOK, Bool.and_eq_true, decide_eq_true_eq] at hok
+    obtain ⟨⟨hid, hcond⟩, hby⟩ := hok
+    cases hb' : T.byId c.id with
+    | none => simp [hb'] at hby
+    | some c' =>
+      simp only [hb', Bool.and_eq_true, beq_iff_eq] at hby
+      obtain ⟨hname, hargs⟩ := hby
+      have hid' : byIdLE T (natToLE 4 c.id ++ bs ++ rest) = some c' := by
+        unfold byIdLE
+        rw [List.append_assoc, take_append_len _ _ 4 (natToLE_length 4 _)]
+        simp [natOfLE_natToLE_lt 4 c.id (by simpa using hid), hb']
+      have := hN k hk rest [] (some c.name) hcond
+      simp only [canonFields, List.filterMap_nil, List.nil_append] at this
+      have hd : (natToLE 4 c.id ++ bs ++ rest).drop 4 = bs ++ rest := by
+        rw [List.append_assoc]; exact drop_append_len _ _ 4 (natToLE_length 4 _)
+      simp only [deserOne, deserObj, hid', hd, hargs, this, Option.map_some, hname]
+      rw [show List.filterMap (fun a => Option.map (fun v => (a.name, v)) (List.lookup a.name fs)) c.args = canonFields c.args fs from rfl, ← hc]
+      simp
+  | manyNil => exact ⟨0, fun fuel _ rest => by simp [deserMany]⟩
+  | manyCons h1 h2 ih1 ih2 =>
+    obtain ⟨N1, hN1⟩ := ih1
+    obtain ⟨N2, hN2⟩ := ih2
+    refine ⟨max N1 N2, fun fuel hf rest => ?_⟩
+    rename_i e v vs b1 b2
+    have a := hN1 fuel (by omega) (b2 ++ rest) false
+    have b := hN2 fuel (by omega) rest
+    simp only [List.length_cons, deserMany, deserElem, List.append_assoc, a]
+    simp [b]
+  | scalar hv h1 ih =>
+    obtain ⟨N, hN⟩ := ih
+    refine ⟨N, fun fuel hf rest ut => ?_⟩
+    have a := hN fuel hf rest ut
+    simp [deserArg, hv, a]
+  | vector hv hl hb h1 ih =>
+    obtain ⟨N, hN⟩ := ih
+    refine ⟨N, fun fuel hf rest ut => ?_⟩
+    rename_i a0 vs bs
+    have a := hN fuel hf rest
+    have ht : (natToLE 4 vs.length ++ bs ++ rest).take 4 = natToLE 4 vs.length := by
+      rw [List.append_assoc]; exact take_append_len _ _ 4 (natToLE_length 4 _)
+    have hd : (natToLE 4 vs.length ++ bs ++ rest).drop 4 = bs ++ rest := by
+      rw [List.append_assoc]; exact drop_append_len _ _ 4 (natToLE_length 4 _)
+    have hlen : ¬ (natToLE 4 vs.length ++ bs ++ rest).length < 4 + vs.length := by
+      simp only [List.length_append, natToLE_length]; omega
+    simp only [deserArg, hv, if_true, ht, natOfLE_natToLE_lt 4 vs.length (by simpa using hl), hlen, if_false, hd, a]
+    simp
+  | bodyNil => exact ⟨0, fun fuel _ rest pre schema _ => by simp [deserBody, canonFields]⟩
+  | bodyReq hc hl h1 h2 ih1 ih2 =>
+    obtain ⟨N1, hN1⟩ := ih1
+    obtain ⟨N2, hN2⟩ := ih2
+    refine ⟨max N1 N2, fun fuel hf rest pre schema hco => ?_⟩
+    rename_i a as whole v b1 b2
+    simp only [condOK, Bool.and_eq_true] at hco
+    have hx := hN2 fuel (by omega) rest (pre ++ [a]) schema hco.2
+    have e1 : canonFields (pre ++ [a]) whole = canonFields pre whole ++ [(a.name, v)] := by
+      rw [canonFields_append]; simp [canonFields, hl]
+    have e2 : canonFields (a :: as) whole = (a.name, v) :: canonFields as whole := by
+      simp [canonFields, hl]
+    rw [e1] at hx
+    simp only [deserBody, hc, List.append_assoc, hN1 fuel (by omega) (b2 ++ rest) _]
+    rw [drop_append_len _ _ _ rfl, hx, e2]
+    simp
+  | bodyOn hc hf h0 hb hl h1 h2 ih1 ih2 =>
+    obtain ⟨N1, hN1⟩ := ih1
+    obtain ⟨N2, hN2⟩ := ih2
+    refine ⟨max N1 N2, fun fuel hfu rest pre schema hco => ?_⟩
+    rename_i a as whole fl bit m v b1 b2
+    simp only [condOK, hc, Bool.and_eq_true] at hco
+    have hfv := flagVal_canon T pre whole fl _ hco.1.1 hco.1.2 hf
+    have hx := hN2 fuel (by omega) rest (pre ++ [a]) schema hco.2
+    have e1 : canonFields (pre ++ [a]) whole = canonFields pre whole ++ [(a.name, v)] := by
+      rw [canonFields_append]; simp [canonFields, hl]
+    have e2 : canonFields (a :: as) whole = (a.name, v) :: canonFields as whole := by
+      simp [canonFields, hl]
+    rw [e1] at hx
+    have hm : maskBit m bit = true := by simp [maskBit, h0, hb]
+    simp only [deserBody, hc, hfv, hm, List.append_assoc, hN1 fuel (by omega) (b2 ++ rest) _]
+    rw [drop_append_len _ _ _ rfl, hx, e2]
+    simp
+  | bodyOff hc hf h0 hb hl h1 ih =>
+    obtain ⟨N, hN⟩ := ih
+    refine ⟨N, fun fuel hfu rest pre schema hco => ?_⟩
+    rename_i a as whole fl bit m bs
+    simp only [condOK, hc, Bool.and_eq_true] at hco
+    have hfv := flagVal_canon T pre whole fl _ hco.1.1 hco.1.2 hf
+    have hx := hN fuel hfu rest (pre ++ [a]) schema hco.2
+    have e1 : canonFields (pre ++ [a]) whole = canonFields pre whole := by
+      rw [canonFields_append]; simp [canonFields, hl]
+    have e2 : canonFields (a :: as) whole = canonFields as whole := by
+      simp [canonFields, hl]
+    rw [e1] at hx
+    have hm : maskBit m bit = false := by simp [maskBit, h0, hb]
+    simp only [deserBody, hc, hfv, hm, hx, e2]
+
+/-! ### checking a concrete table chunk by chunk -/
+
+/-- every constructor of `l` with the id of `c` has the name and arguments of `c` (kernel-friendly). -/
+def agreeAll (c : Ctor) : List Ctor → Bool
+  | [] => true
+  | d :: ds => (if Nat.beq d.id c.id then (Nat.beq d.name c.name && d.args == c.args) else true) && agreeAll c ds
+
+def chunkAgree (T : Table) (cs : List Ctor) : Bool :=
+  cs.all (fun c => decide (c.id < 2 ^ 32) && condOK T [] c.args && agreeAll c T.ctors)
+
+/-- the CRC fold with the accumulator forced at every byte (the kernel evaluates `List.foldl` lazily and
+would otherwise build a chain as deep as the text is long). -/
+def force {α} (x : Nat) (k : Nat → α) : α :=
+  match x with
+  | 0 => k 0
+  | n + 1 => k (n + 1)
+
+theorem force_eq {α} (x : Nat) (k : Nat → α) : force x k = k x := by
+  cases x <;> rfl
+
+def crcGo : Nat → Bytes → Nat
+  | c, [] => c
+  | c, b :: bs => force (crcByte c b) (fun c' => crcGo c' bs)
+
+theorem crcGo_eq (c : Nat) (bs : Bytes) : crcGo c bs = bs.foldl crcByte c := by
+  induction bs generalizing c with
+  | nil => rfl
+  | cons b bs ih => rw [crcGo, force_eq, List.foldl_cons, ih]
+
+def tlIdK (decl : Bytes) : Nat :=
+  let head := decl.takeWhile (· ≠ 32)
+  if 35 ∈ head then (hexNumber? ((head.dropWhile (· ≠ 35)).drop 1)).getD 0
+  else (crcGo 0xFFFFFFFF decl) ^^^ 0xFFFFFFFF
+
+theorem tlIdK_eq (decl : Bytes) : tlIdK decl = tlId decl := by
+  simp [tlIdK, tlId, crc32, crcGo_eq]
+
+def idsOK (cs : List Ctor) : Bool := cs.all (fun c => Nat.beq c.id (tlIdK c.decl))
+
+theorem agreeAll_spec {c d : Ctor} {l : List Ctor} (h : agreeAll c l = true) (hd : d ∈ l) (hid : d.id = c.id) :
+    d.name = c.name ∧ d.args = c.args := by
+  induction l with
+  | nil => cases hd
+  | cons x xs ih =>
+    simp only [agreeAll, Bool.and_eq_true] at h
+    rcases List.mem_cons.mp hd with rfl | hd
+    · have : Nat.beq d.id c.id = true := by simp [hid]
+      simp only [this, if_true, Bool.and_eq_true, beq_iff_eq] at h
+      exact ⟨by simpa using h.1.1, h.1.2⟩
+    · exact ih h.2 hd
+
+theorem ctorOK_of_agree (T : Table) (c : Ctor) (hc : c ∈ T.ctors)
+    (h : (decide (c.id < 2 ^ 32) && condOK T [] c.args && agreeAll c T.ctors) = true) : ctorOK T c = true := by
+  simp only [Bool.and_eq_true] at h
+  unfold ctorOK
+  simp only [Bool.and_eq_true, h.1.1, h.1.2, true_and]
+  cases hb : T.byId c.id with
+  | none =>
+    unfold Table.byId at hb
+    have := List.find?_eq_none.mp hb c (by simpa using hc)
+    simp at this
+  | some c' =>
+    unfold Table.byId at hb
+    have hm : c' ∈ T.ctors := by simpa using List.mem_of_find?_eq_some hb
+    have hid : c'.id = c.id := by simpa using List.find?_some hb
+    have := agreeAll_spec h.2 hm hid
+    simp [this.1, this.2]
+
+theorem all_of_getD {α} (p : α → Bool) (l : List (List α)) (n : Nat) (hn : l.length ≤ n)
+    (h : ∀ k, k < n → (l.getD k []).all p = true) : ∀ x ∈ l.flatten, p x = true := by
+  intro x hx
+  obtain ⟨l', hl', hx'⟩ := List.mem_flatten.mp hx
+  obtain ⟨k, hk, rfl⟩ := List.mem_iff_getElem.mp hl'
+  have := h k (by omega)
+  rw [List.getD_eq_getElem?_getD, List.getElem?_eq_getElem hk] at this
+  exact List.all_eq_true.mp this x hx'
+
+/-! ### top level -/
+
+theorem wire_top (T : Table) (P : Bytes → Prop) (c : Ctor) (fs : Fields) (body : Bytes)
+    (hb : Enc T P (.body c.args fs) body) :
+    ∃ N, ∀ fuel, N ≤ fuel → serialize T fuel c (.obj (some c.name) fs) = some (natToLE 4 c.id ++ body) := by
+  obtain ⟨N, hN⟩ := wire T P hb
+  refine ⟨N + 1, fun fuel hf => ?_⟩
+  obtain ⟨k, rfl, hk⟩ := succ_of_le hf
+  have := hN k hk
+  simp only [SerOK] at this
+  simp [serialize, serObj, this]
+
+theorem roundtrip_top (T : Table) (P : Bytes → Prop) (auto : Bool) (hT : TableOK T)
+    (hP : auto = true → ∀ b, P b → byIdLE T b = none) (c : Ctor) (hc : c ∈ T.ctors) (fs : Fields) (body : Bytes)
+    (hcan : fs = canonFields c.args fs) (hb : Enc T P (.body c.args fs) body) :
+    ∃ N, ∀ fuel, N ≤ fuel → ∀ rest, deserialize T auto fuel (natToLE 4 c.id ++ body ++ rest) =
+      some (.obj (some c.name) fs, (natToLE 4 c.id ++ body).length) := by
+  obtain ⟨N, hN⟩ := roundtrip T P auto hT hP hb
+  refine ⟨N + 1, fun fuel hf rest => ?_⟩
+  obtain ⟨k, rfl, hk⟩ := succ_of_le hf
+  have hok := hT c hc
+  simp only [ctorOK, Bool.and_eq_true, decide_eq_true_eq] at hok
+  obtain ⟨⟨hid, hcond⟩, hby⟩ := hok
+  cases hb' : T.byId c.id with
+  | none => simp [hb'] at hby
+  | some c' =>
+    simp only [hb', Bool.and_eq_true, beq_iff_eq] at hby
+    obtain ⟨hname, hargs⟩ := hby
+    have hid' : byIdLE T (natToLE 4 c.id ++ body ++ rest) = some c' := by
+      unfold byIdLE
+      rw [List.append_assoc, take_append_len _ _ 4 (natToLE_length 4 _)]
+      simp [natOfLE_natToLE_lt 4 c.id (by simpa using hid), hb']
+    have := hN k hk rest [] (some c.name) hcond
+    simp only [canonFields, List.filterMap_nil, List.nil_append] at this
+    have hd : (natToLE 4 c.id ++ body ++ rest).drop 4 = body ++ rest := by
+      rw [List.append_assoc]; exact drop_append_len _ _ 4 (natToLE_length 4 _)
+    simp only [deserialize, deserObj, hid', hd, hargs, hname, this, Option.map_some]
+    rw [show List.filterMap (fun a => Option.map (fun v => (a.name, v)) (List.lookup a.name fs)) c.args = canonFields c.args fs from rfl, ← hcan]
+    simp
+
+/-! ### block.py -/
+
+theorem intOfBE_intToBE4 (i : Int) (h1 : -2^31 ≤ i) (h2 : i < 2^31) :
+    ∃ b, intToBE? 4 i = some b ∧ b.length = 4 ∧ intOfBE b = i := by
+  refine ⟨(intLE 4 i).reverse, by simp [intToBE?, intToLE?_4 i h1 h2], by simp [intLE_length], ?_⟩
+  simp [intOfBE, intOfLE_intLE4 i h1 h2]
+
+theorem intOfBE_intToBE8 (i : Int) (h1 : -2^63 ≤ i) (h2 : i < 2^63) :
+    ∃ b, intToBE? 8 i = some b ∧ b.length = 8 ∧ intOfBE b = i := by
+  refine ⟨(intLE 8 i).reverse, by simp [intToBE?, intToLE?_8 i h1 h2], by simp [intLE_length], ?_⟩
+  simp [intOfBE, intOfLE_intLE8 i h1 h2]
+
+theorem blockIdExt_bytes (b : BlockIdExt) (hw : -2^31 ≤ b.workchain ∧ b.workchain < 2^31)
+    (hs : -2^63 ≤ b.shard ∧ b.shard < 2^63) (hq : -2^31 ≤ b.seqno ∧ b.seqno < 2^31)
+    (hr : b.rootHash.length = 32) (hf : b.fileHash.length = 32) :
+    ∃ d, b.toBytes = some d ∧ d.length = 80 ∧ BlockIdExt.fromBytes d = b := by
+  obtain ⟨w, hw1, hw2, hw3⟩ := intOfBE_intToBE4 _ hw.1 hw.2
+  obtain ⟨s, hs1, hs2, hs3⟩ := intOfBE_intToBE8 _ hs.1 hs.2
+  obtain ⟨q, hq1, hq2, hq3⟩ := intOfBE_intToBE4 _ hq.1 hq.2
+  refine ⟨w ++ s ++ q ++ b.rootHash ++ b.fileHash, by simp [BlockIdExt.toBytes, hw1, hs1, hq1], by simp [hw2, hs2, hq2, hr, hf], ?_⟩
+  have e1 : (w ++ s ++ q ++ b.rootHash ++ b.fileHash).take 4 = w := by
+    simp only [List.append_assoc]; exact take_append_len _ _ 4 hw2
+  have e2 : (w ++ s ++ q ++ b.rootHash ++ b.fileHash).drop 4 = s ++ (q ++ (b.rootHash ++ b.fileHash)) := by
+    simp only [List.append_assoc]; exact drop_append_len _ _ 4 hw2
+  have e3 : (w ++ s ++ q ++ b.rootHash ++ b.fileHash).drop 12 = q ++ (b.rootHash ++ b.fileHash) := by
+    have : (w ++ s ++ q ++ b.rootHash ++ b.fileHash) = (w ++ s) ++ (q ++ (b.rootHash ++ b.fileHash)) := by simp
+    rw [this]; exact drop_append_len _ _ 12 (by simp [hw2, hs2])
+  have e4 : (w ++ s ++ q ++ b.rootHash ++ b.fileHash).drop 16 = b.rootHash ++ b.fileHash := by
+    have : (w ++ s ++ q ++ b.rootHash ++ b.fileHash) = (w ++ s ++ q) ++ (b.rootHash ++ b.fileHash) := by simp
+    rw [this]; exact drop_append_len _ _ 16 (by simp [hw2, hs2, hq2])
+  have e5 : (w ++ s ++ q ++ b.rootHash ++ b.fileHash).drop 48 = b.fileHash := by
+    have : (w ++ s ++ q ++ b.rootHash ++ b.fileHash) = (w ++ s ++ q ++ b.rootHash) ++ b.fileHash := by simp
+    rw [this]; exact drop_append_len _ _ 48 (by simp [hw2, hs2, hq2, hr])
+  unfold BlockIdExt.fromBytes
+  rw [e1, e2, e3, e4, e5, take_append_len _ _ 8 hs2, take_append_len _ _ 4 hq2, take_append_len _ _ 32 hr, hw3, hs3, hq3]
+  have : b.fileHash.take 32 = b.fileHash := by rw [← hf]; exact List.take_length
+  rw [this]
+
+theorem blockIdExt_dict (b : BlockIdExt) : BlockIdExt.fromDict b.toDict = some b := by
+  simp [BlockIdExt.fromDict, BlockIdExt.toDict]
+
+theorem blockId_dict (b : BlockId) : BlockId.fromDict b.toDict = b := by
+  simp [BlockId.fromDict, BlockId.toDict]
+
+theorem blockIdExt_eq_hash (H : Int × Int × Int × Bytes × Bytes → Int) (a b : BlockIdExt) (h : a.pyEq b = true) :
+    a = b ∧ a.pyHash H = b.pyHash H := by
+  have : a = b := by
+    cases a; cases b
+    simp only [BlockIdExt.pyEq, Bool.not_eq_true', Bool.or_eq_false_iff, bne_eq_false_iff_eq] at h
+    simp_all
+  exact ⟨this, by rw [this]⟩
+
 end TonVerif.Proofs.Tl
